@@ -1161,6 +1161,12 @@ func (g *rsGen) scenario(w [5]int, silent, keepSession bool) *rsScenario {
 				at.Mid = g.ops(1+r.Intn(2), w)
 				pendingBound += rsPacketsBound(at.Mid)
 			}
+			if at.Kind == rsNoAck && len(at.Mid) > 1 && at.Mid[0].Kind == 'p' && at.Mid[0].QoS == 0 {
+				// the model lets a connection that never gets its CONNACK take ONE write (its client is dead to
+				// the model afterwards); a QoS 0 publish does not wait, so a second request would be written to
+				// the still open transport as well: keep to what the model can express
+				at.Mid = at.Mid[:1]
+			}
 			if at.Kind != rsDialFail {
 				conn++
 			}
